@@ -178,3 +178,63 @@ func VerifC18_q_faultThenFollowUp() {
 	verifReach("follow-up-answered")
 	verifAssert("C18/no-lock-held-after-follow-up", w.noLockHeld(), "a key lock is still held after the follow-up calls")
 }
+
+// BOUND: topology 0; a statefulset pod (symbolic policy) bound and running; then 2 steps, each out of {the administrator's release API for its IP (refused while the pod runs, accepted once it is gone), the pod finishes, the pod is deleted, a queued event is handled, a resync pass}; after every step no pod / pool key lock may be left held; finally the same-named pod is re-created, filtered and bound and a resync pass runs (all of which take the same key locks)
+func VerifC18_q_operationsLeaveNoLock() {
+	w := vpNewWorld(0, false)
+	if err := w.configure(); err != nil {
+		return
+	}
+	w.setStatefulSet(3)
+	policy := nondetPick("", "immutable", "never")
+	name := "ss-0"
+	w.createPod(vpMakePod(name, "U1", vpKindSts, policy, "", ""))
+	w.syncListers()
+	nodes, err := w.filter(name, "n1", "n2", "n3")
+	if err != nil || len(nodes) == 0 || w.bind(name, nodes[0]) != nil {
+		return
+	}
+	w.setRunning(name)
+	w.syncListers()
+	ip := vpBoundIPs(w.pods[name])[0]
+	verifAssert("C18/no-lock-held-after-bind", w.noLockHeld(), "a key lock is still held after filter and bind returned")
+	for i := 0; i < 2; i++ {
+		switch nondetChoice(5) {
+		case 0:
+			_ = w.apiRelease(ip)
+		case 1:
+			if w.pods[name] != nil {
+				w.finishPod(name)
+				w.syncListers()
+			}
+		case 2:
+			if w.pods[name] != nil {
+				w.deletePod(name)
+				w.syncListers()
+			}
+		case 3:
+			if len(w.pending) > 0 {
+				_ = w.handleEvent(0)
+			}
+		case 4:
+			w.resync()
+		}
+		verifAssert("C18/no-lock-held-after-operation", w.noLockHeld(), "a key lock is still held after an operation returned")
+	}
+	verifReach("operations-returned")
+	if w.pods[name] != nil {
+		w.deletePod(name)
+		w.syncListers()
+	}
+	for len(w.pending) > 0 {
+		_ = w.handleEvent(0)
+	}
+	w.createPod(vpMakePod(name, "U2", vpKindSts, policy, "", ""))
+	w.syncListers()
+	if nodes, err := w.filter(name, "n1", "n2", "n3"); err == nil && len(nodes) > 0 {
+		_ = w.bind(name, nodes[0])
+	}
+	w.resync()
+	verifReach("follow-up-on-same-key-answered")
+	verifAssert("C18/no-lock-held-at-end", w.noLockHeld(), "a key lock is still held after the follow-up operations")
+}
